@@ -22,7 +22,10 @@ LEVEL_TEXT = ("Theorems in coq/Props/C05.v about the executable model coq/Link/L
               "re-created values in other insertion orders, memstore and cidlink.Memory, store contents compared; 2/5 of the "
               "histories run on cidlink.LinkSystemUsingMulticodecRegistry over a PRIVATE registry (standard numbers "
               "re-bound to other implementations, private numbers, numbers bound for encoding only / decoding only), "
-              "the rest on DefaultLinkSystem.")
+              "the rest on DefaultLinkSystem; stores through writers with transient faults; NESTED operations (a storage "
+              "opener that performs a ComputeLink / load with the same hash function, on the same or a second link "
+              "system, before returning) — for the model a nested operation is the same operation performed just "
+              "before the outer one (hashers are fresh per call): a tie obligation discharged by this run.")
 LEVEL_NOTE = ("The hash functions are arbitrary (no law assumed). For dag-cbor the codec laws (round trip, insensitivity to "
               "map entry order) are discharged against coq/Codec/Cbor.v by citing C02's theorems, so "
               "C05_dagcbor_link_fn_perm / C05_dagcbor_store_load have no codec premise; raw likewise. dag-json/json are "
